@@ -72,21 +72,25 @@ def retainLoop (bombs : List Id) (origLen : Nat) : (fuel : Nat) → Vec → (rea
           | .error e => .error e
           | .ok v => retainLoop bombs origLen fuel v (read + 1) (write + 1) o
 
+/-- what follows the first loop (l.2335-2378) -/
+def retainAfterScan (bombs : List Id) (v : Vec) (origLen : Nat) : RetainScan → M (Out Unit)
+  | .allKept o => .ok ⟨v, .ret (), o⟩
+  | .panicked o => .ok ⟨v, .panic false, o⟩
+  | .firstRemoved read o =>
+    -- `PanicGuard { read: read + 1, write: read }`, then `drop_in_place(add(read))`
+    match dropAt bombs false v read with
+    | .error e => .error e
+    | .ok (v, panicked) =>
+      if panicked then (retainGuard v (read + 1) read origLen).map (⟨·, .panic true, o⟩)
+      else retainLoop bombs origLen (origLen - (read + 1)) v (read + 1) read o
+
 def retain (bombs : List Id) (v : Vec) (o : List Outcome) : M (Out Unit) :=
   let origLen := v.len
   if origLen = 0 then .ok ⟨v, .ret (), o⟩
   else
     match retainScan v origLen 0 o with
     | .error e => .error e
-    | .ok (.allKept o) => .ok ⟨v, .ret (), o⟩
-    | .ok (.panicked o) => .ok ⟨v, .panic false, o⟩
-    | .ok (.firstRemoved read o) =>
-      -- `PanicGuard { read: read + 1, write: read }`, then `drop_in_place(add(read))`
-      match dropAt bombs false v read with
-      | .error e => .error e
-      | .ok (v, panicked) =>
-        if panicked then (retainGuard v (read + 1) read origLen).map (⟨·, .panic true, o⟩)
-        else retainLoop bombs origLen (origLen - (read + 1)) v (read + 1) read o
+    | .ok s => retainAfterScan bombs v origLen s
 
 /-! ## `dedup_by` — `BumpBox<[T]>::dedup_by` (l.2538-2640) -/
 
